@@ -15,12 +15,20 @@
    from its queue -- in order, each message once -- except possibly the one message whose confirmation is outstanding
    (C16_line_exactly_once); the data phase starts synchronised after RESET REMOTE LINK (C16_line_reset_synchronises); on the
    original code the statement is false (C16_line_exactly_once_refuted: link test requested while a message is outstanding).
+   (6) COMPOSITION, unbalanced line, one slave connection, BOTH directions (Link/LinkLineU.v): the literal unbalanced primary
+   (sc_run / sc_handle) and the literal unbalanced secondary (su_on_msg / su_handle / su_request), octets on the same kind of line:
+   messages of the master by SEND/CONFIRM, class 1 / class 2 data of the slave by REQUEST/RESPOND (taken from the class queue on a
+   request with the expected bit, remembered, repeated for a repeated request), link tests; every history of runs, losses and
+   application calls on either side: delivered = taken in both directions, in order, each once, except possibly the one outstanding
+   item (C16_uline_exactly_once).  Refuted for the original secondary (fi: an ASDU delivered twice after a link test) and the original
+   primary (fg: a message never transmitted again).
    NOT proved: frames that are DELAYED on the line (several frames queued between the stations, answers arriving after the
-   acknowledgement timeout), the unbalanced line, and the composition with the class queues.  Those stay with the
+   acknowledgement timeout), several slaves sharing the line (round robin of the unbalanced master), and the composition with the
+   ring of the class queues (cs101_queue.c; the slave application here is the FIFO stub of the harness).  Those stay with the
    differential execution of the composed model against the real CS101_Master / CS101_Slave objects on the simulated
    line, and with the exactly-once oracle, on every run. *)
 From Coq Require Import ZArith List Bool.
-From L60870 Require Import Link.Abp Link.AbpProofs Link.Cs101Queue Link.Cs101QueueProofs Link.Ft12 Link.LinkSec Link.LinkPrim Link.Ft12Proofs Link.LinkProofs Link.LinkOnce Link.LinkLine.
+From L60870 Require Import Link.Abp Link.AbpProofs Link.Cs101Queue Link.Cs101QueueProofs Link.Ft12 Link.LinkSec Link.LinkPrim Link.Ft12Proofs Link.LinkProofs Link.LinkOnce Link.LinkLine Link.LinkLineU.
 Import ListNotations.
 Local Open Scope Z_scope.
 
@@ -125,6 +133,42 @@ Theorem C16_line_exactly_once_refuted :
   let st' := fold_left (lstep ex_v0 ex_c 2 true false) [LEnq [45; 1; 6; 0; 1; 0; 7; 0]; LRun 10 true false; LTest; LRun 250 false false] ex_st in
   lfail st' = false /\ pb_ps (lp st') = PLL_AVAILABLE /\ lT st' = [[45; 1; 6; 0; 1; 0; 7; 0]] /\ lD st' = [].
 Proof. exact line_exactly_once_refuted. Qed.
+
+(* composition of the literal unbalanced primary (one slave connection) and secondary, both directions (Link/LinkLineU.v).
+   uT / uD: messages of the master taken for transmission as a new frame / handed to the slave application;
+   uR / uU: ASDUs taken from the slave's class queues / handed to the master application. *)
+Theorem C16_uline_exactly_once : forall v c addr, 0 <= alen c <= 2 -> fc_ v = true -> fg v = true -> fh v = true -> fi v = true ->
+  addr_in_range (alen c) addr -> addr <> broadcast_addr (alen c) ->
+  forall evs st, JU c addr st -> ufail st = false ->
+  let st' := fold_left (ustep v c) evs st in ufail st' = false ->
+  (uD st' = uT st' \/ (uT st' = uD st' ++ [sc_msg (um st')] /\ sc_ps (um st') = PLL_SEND_CONFIRM)) /\
+  (uU st' = uR st' \/ (uR st' = uU st' ++ [su_udbuf (us st')] /\ sc_ps (um st') = PLL_REQUEST_RESPOND)).
+Proof. exact uline_exactly_once. Qed.
+
+Theorem C16_uline_invariant : forall v c addr, 0 <= alen c <= 2 -> fc_ v = true -> fg v = true -> fh v = true -> fi v = true ->
+  addr_in_range (alen c) addr -> addr <> broadcast_addr (alen c) ->
+  forall evs st, JU c addr st -> ufail st = false -> ufail (fold_left (ustep v c) evs st) = false -> JU c addr (fold_left (ustep v c) evs st).
+Proof. exact uline_invariant. Qed.
+
+Example C16_uline_example :
+  let st' := fold_left (ustep uex_v uex_c) uex_evs uex_st in
+  ufail st' = false /\ uD st' = [[45; 1; 6; 0; 1; 0; 7]] /\ uT st' = uD st' /\
+  uU st' = [[30; 1; 3; 0; 1; 0; 1]; [30; 1; 3; 0; 1; 0; 2]; [9; 1; 3; 0; 1; 0; 3]] /\ uR st' = uU st'.
+Proof. exact uline_example. Qed.
+
+Theorem C16_uline_exactly_once_refuted_secondary :
+  let st' := fold_left (ustep uex_v_nofi uex_c)
+               [UEnq true [30; 1; 3; 0; 1; 0; 1]; UReq true; URun 10 false false; UTest; URun 100 false false;
+                UEnq true [30; 1; 3; 0; 1; 0; 2]; UReq true; URun 200 false false; URun 300 false false] uex_st in
+  ufail st' = false /\ sc_ps (um st') = PLL_AVAILABLE /\ uR st' = [[30; 1; 3; 0; 1; 0; 1]; [30; 1; 3; 0; 1; 0; 2]] /\
+  uU st' = [[30; 1; 3; 0; 1; 0; 1]; [30; 1; 3; 0; 1; 0; 1]; [30; 1; 3; 0; 1; 0; 2]].
+Proof. exact uline_exactly_once_refuted_fi. Qed.
+
+Theorem C16_uline_exactly_once_refuted_primary :
+  let st' := fold_left (ustep uex_v_nofg uex_c)
+               [UMsg [45; 1; 6; 0; 1; 0; 7]; URun 10 true false; UTest; URun 250 false false; URun 300 false false; URun 400 false false; URun 500 false false] uex_st in
+  ufail st' = false /\ sc_ps (um st') = PLL_AVAILABLE /\ uT st' = [[45; 1; 6; 0; 1; 0; 7]] /\ uD st' = [].
+Proof. exact uline_exactly_once_refuted_fg. Qed.
 
 Example C16_example :
   delivered nat (abp_run nat (abp_init nat [1; 2; 3]%nat)
